@@ -25,7 +25,7 @@
 (*                                                                          *)
 (* Not part of the normal form (the statement does not speak of them):      *)
 (* titles, descriptions other than a response's, examples, tags, summary,   *)
-(* externalDocs, xml, extensions, collectionFormat, allowEmptyValue,        *)
+(* externalDocs, xml, extensions, collectionFormat,                         *)
 (* response media types.  An operation without `consumes` accepts any media *)
 (* type ("*/*").                                                            *)
 (***************************************************************************)
@@ -91,14 +91,19 @@ Norm(ver, names, s) ==
 Restrict(o, ks) == O([k \in Keys(o) \cap ks |-> o.m[k]])
 
 (* constraints of a v2 parameter-like object (parameter, header, form parameter) *)
-ParamCons2(names, p) == Norm(2, names, Restrict(p, ParamKeys \cup {"x-nullable"}))
+(* allowEmptyValue (query / form parameters) is a constraint like the others: it decides whether "?q=" is acceptable. *)
+(* OpenAPI 3 defines it on the Parameter Object; the converter keeps it inside the parameter's schema (openapi3.Schema   *)
+(* has the field).  As for x-nullable, either place counts as saying it.                                               *)
+WithAllowEmpty(c, yes) == IF yes /\ c.t = "obj" /\ "$badref" \notin DOMAIN c.m THEN O(KV("allowEmptyValue", B(TRUE)) @@ c.m) ELSE c
+ParamCons2(names, p) == WithAllowEmpty(Norm(2, names, Restrict(p, ParamKeys \cup {"x-nullable"})), IsTrue(p, "allowEmptyValue"))
 (* constraints of a v3 parameter / header: its schema *)
 (* x-nullable on a v2 parameter / header / form parameter is an extension of the parameter object; the  *)
 (* statement does not say where OpenAPI 3 must carry it, so "nullable: true" in the schema and the        *)
 (* extension kept on the v3 parameter (or on the form property schema) both count as saying "nullable";   *)
 (* for schema objects proper (definitions, body, response) only "nullable" counts.                        *)
 WithNullable(c, yes) == IF yes /\ c.t = "obj" /\ "$badref" \notin DOMAIN c.m THEN O(KV("nullable", B(TRUE)) @@ c.m) ELSE c
-ParamCons3(names, p) == WithNullable(IF Has(p, "schema") THEN Norm(3, names, p.m["schema"]) ELSE EmptyO, IsTrue(p, "x-nullable"))
+ParamCons3(names, p) == WithAllowEmpty(WithNullable(IF Has(p, "schema") THEN Norm(3, names, p.m["schema"]) ELSE EmptyO, IsTrue(p, "x-nullable")),
+                                       IsTrue(p, "allowEmptyValue") \/ (Has(p, "schema") /\ IsTrue(p.m["schema"], "allowEmptyValue")))
 Req(p) == B(IsTrue(p, "required"))
 
 (* one-level dereference of x into the component table `table` *)
@@ -197,7 +202,8 @@ Resp3(d, names, r0) ==
 (* constraints                                                                        *)
 FormCons3(names, stab, prop) ==
    LET x == Deref(SchemaPrefix(3), stab, prop) IN
-   IF Has(x, "$badref") THEN x ELSE WithNullable(Norm(3, names, Restrict(x, ParamKeys \cup {"nullable"})), IsTrue(x, "x-nullable"))
+   IF Has(x, "$badref") THEN x
+   ELSE WithAllowEmpty(WithNullable(Norm(3, names, Restrict(x, ParamKeys \cup {"nullable"})), IsTrue(x, "x-nullable")), IsTrue(x, "allowEmptyValue"))
 
 Op3(d, item, op) ==
    LET comps == Sub(d, "components")
